@@ -13,6 +13,8 @@ def corr(rng, tier):
 
 def search(rng, tier, broken, cases):
     S = IS.search_c01(rng, 135 if tier == "quick" and not broken else 1350)
+    import dtypesearch
+    dtypesearch.search_dtype(rng, 12 if tier == "quick" and not broken else 60, ['ops', 'mesh'], pid="C01", S=S)   # same numbers typed int64 vs float64
     return S.violations, S.stats()
 
 
